@@ -61,6 +61,20 @@ Theorem C20_store_roundtrip :
 Proof. exact store_chunk_roundtrip. Qed.
 Print Assumptions C20_store_roundtrip.
 
+(* What StoreChunk leaves under the chunk's name is toStorage(store format, plain data): the raw bytes in
+   an uncompressed store, Compress(plain) in a compressed one -- a function of the format and the plain
+   bytes ONLY (not of where the chunk object came from, what it was stored into before, or what its bytes
+   look like: C20_store_roundtrip above holds for EVERY plain byte string, zstd frames included, because
+   the codec enters solely through the round-trip law). *)
+Theorem C20_stored_object :
+  forall (zcomp : bytes -> option bytes) st rs i plain s s',
+  store_chunk zcomp st rs i plain s = (s', None) ->
+  exists b, to_storage zcomp (st_unc st) plain = Some b /\
+            stat (snd (name_from_id st i)) s' = Some (EFile meta0 b) /\
+            (st_unc st = true -> b = plain) /\ (st_unc st = false -> zcomp plain = Some b).
+Proof. exact store_chunk_object. Qed.
+Print Assumptions C20_stored_object.
+
 (* Coexistence: storing chunk c in format z changes nothing that a store on the same directory
    serves for any other (id, format) -- in particular for the same id in the other format.  No law
    about the codec or the digest is needed; ids are 256-bit numbers. *)
@@ -153,3 +167,11 @@ Example C20_example_laws :
   (forall x b, ex_zcomp x = Some b -> ex_zdecomp b = Some x) /\
   (forall x b, ex_zcomp x = Some b -> b <> []).
 Proof. split; intros x b E; inversion E; [reflexivity|discriminate]. Qed.
+
+(* a chunk whose plain bytes are themselves a frame of the example codec is compressed AGAIN and round-trips *)
+Example C20_example_frame_as_content :
+  let plain := [40; 181; 9; 9]%N in      (* = ex_zcomp [9; 9] *)
+  let s := fst (store_chunk ex_zcomp ex_c ex_rs (ex_H plain) plain ex_s0) in
+  get_chunk ex_H ex_zdecomp ex_c (ex_H plain) s = GetOk [40; 181; 40; 181; 9; 9]%N /\
+  get_data ex_H ex_zdecomp ex_c (ex_H plain) s = Some plain.
+Proof. vm_compute. split; reflexivity. Qed.
